@@ -615,7 +615,7 @@ func c07Scenarios(tier string) []Scenario {
 func init() {
 	register(&Property{ID: "C07", Level: "model_checking",
 		Technique: "stateless model checking of the real server under a controlled scheduler (all schedules within a preemption bound)",
-		Rule:      "every schedule with at most P preemptions of the server goroutines, scripted implementation and releaser, per scenario (target kind x flush stage x FlushOp behaviour x gated/immediate x release timing x Maxpend x dialect; also with the target carrying tag 0xFFFF; a flush of a tag re-used after a Tversion in mid-session; a cancelled read on an authentication fid whose tag is used again before AuthRead returns); after quiescence sequential probes (fid state, tag reuse); distinct = distinct per-object operation orders",
+		Rule:      "every schedule with at most P preemptions of the server goroutines, scripted implementation and releaser, per scenario (target kind x flush stage x FlushOp behaviour x gated/immediate x release timing x Maxpend x dialect; also with the target carrying tag 0xFFFF; a flush of a tag re-used after a Tversion in mid-session; a cancelled read on an authentication fid whose tag is used again before AuthRead returns); after quiescence sequential probes (fid state, tag reuse); distinct = distinct per-object operation orders ; requests the implementation kept after its operation returned, then cancelled through FlushOp (fids clunkable and their numbers free afterwards)",
 		Assumptions: []string{"code between two synchronisation operations is atomic (race-free executions)", "transport modelled as an unbounded reliable byte queue", "the reply buffer the target receives last carried the matching R-type (warm-up request of the same kind)"},
 		Scenarios:   c07Scenarios, QuickS: 110, ThoroughS: 1700})
 }
